@@ -2,7 +2,7 @@
    permutations (sort / un-sort), evaluation in the caller's order, validity mask, knot construction. *)
 From Coq Require Import QArith Qround Qabs Lqa List Bool Arith Lia Permutation Setoid Morphisms.
 Import ListNotations.
-From PV Require Import Lib.WLS BSpline.Eval.
+From PV Require Import Lib.WLS BSpline.Eval BSpline.CoxDeBoor.
 Open Scope Q_scope.
 
 (* ------------------------------------------------------------------ small facts *)
@@ -17,10 +17,10 @@ Proof.
   unfold Qltb. rewrite negb_false_iff. apply Qle_bool_iff.
 Qed.
 
-Definition nondecr (t : list Q) := forall i j, (i <= j)%nat -> (j < length t)%nat -> nthQ t i <= nthQ t j.
+(* nondecr is defined in BSpline/CoxDeBoor.v *)
 
 (* ------------------------------------------------------------------ one pass of BSPLVN *)
-Lemma pass_length v : forall dp dmr c, length dp = length v -> length dmr = length v ->
+Lemma pass_length' v : forall dp dmr c, length dp = length v -> length dmr = length v ->
   length (pass v dp dmr c) = S (length v).
 Proof.
   induction v as [|a v IH]; intros [|p dp] [|m dmr] c H1 H2; simpl in *; try discriminate; auto.
